@@ -401,6 +401,145 @@ def find_loops(st: List[Tok], lo: int, hi: int) -> List[Loop]:
     return out
 
 
+def enclosing_open(st: List[Tok], i: int, lo: int) -> Optional[int]:
+    """index of the opening bracket that encloses token i (searching back to lo), or None"""
+    depth = 0
+    j = i - 1
+    while j >= lo:
+        t = st[j]
+        if t.kind == "punct":
+            if t.text in CLOSE: depth += 1
+            elif t.text in OPEN:
+                if depth == 0: return j
+                depth -= 1
+        j -= 1
+    return None
+
+
+def _if_of_block(st: List[Tok], o: int, lo: int) -> Optional[int]:
+    """st[o] is `{`: if it is the then-block of an `if`, the index of that `if` keyword, else None"""
+    depth = 0
+    j = o - 1
+    while j >= lo:
+        t = st[j]
+        if t.kind == "punct" and t.text in CLOSE: depth += 1
+        elif t.kind == "punct" and t.text in OPEN:
+            if depth == 0: return None
+            depth -= 1
+        elif depth == 0:
+            if t.kind == "punct" and t.text == ";": return None
+            if t.kind == "ident" and t.text == "if": return j
+            if t.kind == "ident" and t.text in ("match", "for", "while", "loop", "else", "let") and t.text != "let": return None
+            if t.kind == "punct" and t.text == "=>": return None
+        j -= 1
+    return None
+
+
+def _chain_end(st: List[Tok], close: int) -> int:
+    """close is the `}` of a then-block: index of the last `}` of the whole if / else-if / else chain"""
+    e = close
+    while st[e + 1].kind == "ident" and st[e + 1].text == "else":
+        k = e + 2
+        while st[k].text != "{":
+            if st[k].text in ("(", "["): k = match_close(st, k)
+            k += 1
+        e = match_close(st, k)
+    return e
+
+
+@dataclass
+class ContinueSite:
+    kw: int            # st index of `continue`
+    end: int           # st index of the last token of the statement (`;` or the keyword itself)
+    if_close: int      # `}` of the guarding `if` block (which has no else and ends with the continue)
+    block_close: int   # `}` of the block holding that `if` (the rest of this block becomes the else branch)
+
+
+def find_for_continues(st: List[Tok], loops: List[Loop], lo: int, hi: int):
+    """E21: `continue` statements of `for` loops (Verus: "for-loops do not yet support continue") that have the shape
+         if COND { S; continue; } REST        (no else; the if is a statement of block B)
+    where B is the loop body, or is in tail position of it (B is a match-arm body or an if/else branch whose match / if-chain is
+    the last statement of a block that is itself the loop body or in tail position). For these, `continue` is equivalent to
+    skipping REST:   if COND { S; } else { REST }.  Returns (sites, unsupported_count)."""
+    sites, bad = [], 0
+    for i in range(lo, hi):
+        t = st[i]
+        if not (t.kind == "ident" and t.text == "continue"): continue
+        inner = [l for l in loops if l.body_open < i < l.body_close]
+        if not inner: continue
+        L = max(inner, key=lambda l: l.body_open)
+        if L.kind != "for": continue
+        ok = False
+        try:
+            end = i
+            if st[i + 1].text == ";": end = i + 1
+            elif st[i + 1].text != "}": raise ValueError("labelled continue")
+            o = enclosing_open(st, i, lo)
+            if o is None or st[o].text != "{": raise ValueError("no block")
+            c = match_close(st, o)
+            if end + 1 != c: raise ValueError("continue is not the last statement of its block")
+            iff = _if_of_block(st, o, lo)
+            if iff is None: raise ValueError("not guarded by an if")
+            if st[iff - 1].kind == "ident" and st[iff - 1].text == "else": raise ValueError("else-if guard")
+            if st[c + 1].kind == "ident" and st[c + 1].text == "else": raise ValueError("guard has an else")
+            B = enclosing_open(st, iff, lo)
+            if B is None or st[B].text != "{": raise ValueError("no enclosing block")
+            cur = B
+            while cur != L.body_open:
+                if cur < L.body_open: raise ValueError("left the loop")
+                prev = st[cur - 1]
+                if prev.kind == "punct" and prev.text == "=>":
+                    M = enclosing_open(st, cur, lo)
+                    last = match_close(st, M)
+                elif (prev.kind == "ident" and prev.text == "else") or _if_of_block(st, cur, lo) is not None:
+                    first = cur
+                    # go to the first then-block of the chain
+                    last = _chain_end(st, match_close(st, cur))
+                    M = cur
+                else:
+                    raise ValueError("block is neither a match arm nor an if/else branch")
+                nxt = last + 1
+                if st[nxt].text == ";": nxt += 1
+                P = enclosing_open(st, M, lo)
+                if P is None or st[P].text != "{" or match_close(st, P) != nxt: raise ValueError("not in tail position")
+                cur = P
+            sites.append(ContinueSite(i, end, c, match_close(st, B)))
+            ok = True
+        except (ValueError, LexError, IndexError):
+            pass
+        if not ok: bad += 1
+    return sites, bad
+
+
+def stmt_start(st: List[Tok], i: int, lo: int) -> Optional[int]:
+    """index of the first token of the statement that contains token i (the statement of the innermost block around i), or
+    None if i is not inside a block statement (e.g. a brace-less match arm)"""
+    depth = 0
+    j = i - 1
+    while j >= lo:
+        t = st[j]
+        if t.kind == "punct":
+            if t.text in CLOSE:
+                if depth == 0 and t.text == "}":
+                    nx = st[j + 1]
+                    cont = (nx.kind == "punct" and nx.text in (".", "?", ")", ",", "]", "==", "!=", "&&", "||", "+", "-", "*", "/", "as")) or \
+                           (nx.kind == "ident" and nx.text in ("else", "as"))
+                    if not cont: return j + 1
+                depth += 1
+            elif t.text in OPEN:
+                if depth == 0:
+                    if t.text == "{": return j + 1
+                    # inside (..) or [..]: keep walking outwards
+                else:
+                    depth -= 1
+            elif depth == 0 and t.text == ";":
+                return j + 1
+            elif depth == 0 and t.text == "=>":
+                return None
+        j -= 1
+    return None
+
+
 def param_names(st: List[Tok], fp: "FnParts") -> List[Optional[str]]:
     """names of the parameters of a fn (None for self / non-identifier patterns), in order"""
     out: List[Optional[str]] = []
